@@ -578,7 +578,7 @@ fn plan(property: &str, tier: &str) -> Option<Plan> {
                 level: "model_checking",
                 functions: vec!["hpbf::ir::Program::parse", "hpbf::opt::optimize", "hpbf::bc::CodeGen::translate", "hpbf::exec::BcInterpreter::{build_threaded_code, build_context}", "Executable::execute called twice per executor on fresh contexts"],
                 rule: "one case = (program, width); every executor is built under catch_unwind and executed twice on every explored path, the two symbolic event logs must be identical terms; non-trivial = forked or needed >= 1 solver query".into(),
-                assumptions: vec!["claimed part: totality of compilation on the corpus and re-execution determinism; independence from hash seeds, cross-process determinism and the complexity clause are not decidable by this technique and are not claimed".into()],
+                assumptions: vec!["claimed part: totality of compilation on the corpus and re-execution determinism; independence from hash seeds, cross-process determinism and the complexity clause are not decidable by this technique and are not claimed; two monitors (sampling, not solver-decided) report on them: every executor is compiled four times in one process and the renderings compared, and every compilation runs under a time cap (10 s quick / 30 s thorough) with a family of 2..14-fold multiplication chains aimed at the optimiser's blow-up guards".into()],
                 corpus_desc: desc,
             })
         }
